@@ -333,3 +333,67 @@ def normalise(relpath, tree):
             for a, b in mapping.items():
                 applied.append((q, a, b))
     return applied
+
+
+# ---------------------------------------------------------------------------------------------------------------
+# statement skeletons: the shape of a function with every leaf (names, constants, attribute names, operators, keyword
+# names) erased.  A function whose skeleton multiset equals the reference's differs from it in leaves only.
+def _skel(n):
+    if isinstance(n, ast.Name):
+        return "N"
+    if isinstance(n, ast.Constant):
+        return "K"
+    if isinstance(n, ast.Attribute):
+        return "A(" + _skel(n.value) + ")"
+    if isinstance(n, (ast.operator, ast.cmpop, ast.unaryop, ast.boolop, ast.expr_context)):
+        return ""
+    if isinstance(n, ast.keyword):
+        return "kw(" + _skel(n.value) + ")"
+    parts = []
+    for f, v in ast.iter_fields(n):
+        if f in ("body", "orelse", "finalbody", "handlers", "cases") and isinstance(n, ast.stmt):
+            parts.append(f + ("+" if v else "-"))
+            continue
+        if isinstance(v, ast.AST):
+            s = _skel(v)
+            if s:
+                parts.append(s)
+        elif isinstance(v, list):
+            parts.append("[" + ",".join(_skel(x) for x in v if isinstance(x, ast.AST)) + "]")
+    return type(n).__name__ + "(" + ",".join(parts) + ")"
+
+
+def skeleton(fn):
+    """sorted list with the *kind* of every statement of the function (Assign, For, If, With, Return ...; nested
+    definitions excluded); docstrings and bare-string statements, `pass` and print(...) statements are not part of
+    the shape.  Editing expressions keeps it; adding, removing, splitting or merging statements changes it."""
+    import hashlib
+    out = []
+
+    def walk(stmts):
+        for s in stmts:
+            if isinstance(s, (ast.FunctionDef, ast.AsyncFunctionDef, ast.ClassDef)):
+                continue
+            if isinstance(s, ast.Pass):
+                continue
+            if isinstance(s, ast.Expr) and isinstance(s.value, ast.Constant):
+                continue
+            if isinstance(s, ast.Expr) and isinstance(s.value, ast.Call) and isinstance(s.value.func, ast.Name) \
+                    and s.value.func.id == "print":
+                continue
+            out.append(type(s).__name__)
+            for f in ("body", "orelse", "finalbody"):
+                b = getattr(s, f, None)
+                if isinstance(b, list):
+                    walk(b)
+            for h in getattr(s, "handlers", []) or []:
+                walk(h.body)
+    walk(fn.body)
+    return sorted(out)
+
+
+def drift(fn, ref_skeleton):
+    """number of statements of fn without a same-shaped counterpart in the reference plus the reverse"""
+    from collections import Counter
+    a, b = Counter(skeleton(fn)), Counter(ref_skeleton)
+    return sum(((a - b) + (b - a)).values())
